@@ -8,6 +8,13 @@ mod io_script;
 mod c10;
 mod c11;
 mod c19;
+mod oracle;
+mod strict;
+mod dbgen;
+mod kdbx;
+mod diff;
+mod hook;
+mod c09p;
 mod canon;
 
 use common::Args;
@@ -53,6 +60,8 @@ fn main() {
         "C10" => c10::run(&args),
         "C11" => c11::run(&args),
         "C19" => c19::run(&args),
+        "C03" | "C07" | "C08" | "C09" | "C12" => kdbx::run(&args),
+        "C09P" => c09p::run(&args),
         "C13" | "C14" | "C15" | "C16" => merge::run(&args),
         p => { eprintln!("unknown property {}", p); std::process::exit(2); }
     }
